@@ -2,3 +2,4 @@
 import BezierVerif.Basic
 import BezierVerif.DriverMain
 import BezierVerif.Props.C01
+import BezierVerif.Props.C09
